@@ -28,7 +28,7 @@ def one_property(prop):
         wt = Path(f"/work/try/matrix-{sd.name}/repo")
         wt.parent.mkdir(parents=True, exist_ok=True)
         sh(["git", "-C", "/repo", "worktree", "remove", "--force", str(wt)])
-        sh(["git", "-C", "/repo", "worktree", "add", "-q", "--detach", str(wt), "HEAD"])
+        sh(["git", "-C", "/repo", "worktree", "add", "-q", "--detach", str(wt), os.environ.get("SEED_BASE", "HEAD")])
         res = {"property": prop}
         try:
             patches = [sd / "patch.diff"] + sorted(p for p in sd.glob("patch.*.diff") if p.name != "patch.orig.diff")
